@@ -194,3 +194,66 @@ func pendingSocketSendsNothing(c *Ctx, rule string) {
 		c.Ob(rule, "sio.clientSocket._sendBuffers/no-send-while-connect-pending", sb.Pos(), true, "the connect-pending state is not treated as connected")
 	}
 }
+
+// F57 (C06-D12, shared with C07-D9 and C17-D7): a closed Engine.IO socket never adopts a transport.
+func closedSocketAdoptsNoTransport(c *Ctx, rule string) {
+	p := c.P
+	for _, a := range []struct{ fn, recv string }{{"serverSocket.upgradeTo", "s"}, {"clientSocket.finishUpgradeTo", "s"}} {
+		fn := p.Fn("eio", a.fn)
+		li := Locks(fn)
+		swaps := findInstrs(fn, storePred(`s\.transport`))
+		if len(swaps) == 0 {
+			c.Undecided("%s: no store to s.transport in %s", rule, a.fn)
+			continue
+		}
+		for _, sw := range swaps {
+			// a non-blocking look at closeChan, made while transportMu is write-held, decides the swap
+			okSel := false
+			for _, b := range fn.Blocks {
+				for _, in := range b.Instrs {
+					se, ok := in.(*ssa.Select)
+					if !ok || se.Blocking {
+						continue
+					}
+					onClose := false
+					for _, st := range se.States {
+						if strings.HasSuffix(Term(st.Chan), ".closeChan") {
+							onClose = true
+						}
+					}
+					if onClose && li.HoldsW(in, "s.transportMu") && Dominates(in, sw) && SameRegion(li, in, sw, "s.transportMu") && HasGuard(sw, `^\(select@.* == 0\)==false$`) {
+						okSel = true
+					}
+				}
+			}
+			c.Ob(rule, "eio."+a.fn+"/closed-socket-adopts-no-transport", sw.Pos(), okSel, "the transport is swapped in without looking at closeChan under transportMu: an UPGRADE packet that arrives after the session was closed re-attaches the dead session to the probed transport — nothing ever closes it, packets keep flowing into a closed session (a CONNECT on it creates a socket that stays listed for ever)")
+		}
+	}
+	// the upgrade watcher gives up when the socket closes
+	mu := p.Fn("eio", "Server.maybeUpgrade")
+	watch := false
+	for _, f := range WithAnons(mu) {
+		for _, b := range f.Blocks {
+			for _, in := range b.Instrs {
+				se, ok := in.(*ssa.Select)
+				if !ok || !se.Blocking {
+					continue
+				}
+				hasDone, hasClose := false, false
+				for _, st := range se.States {
+					t := Term(st.Chan)
+					if strings.HasSuffix(t, ".closeChan") {
+						hasClose = true
+					}
+					if t == "done" || strings.HasSuffix(t, "done") {
+						hasDone = true
+					}
+				}
+				if hasDone && hasClose {
+					watch = true
+				}
+			}
+		}
+	}
+	c.Ob(rule, "eio.Server.maybeUpgrade/watcher-sees-the-close", mu.Pos(), watch, "the goroutine that waits for the upgrade to finish or time out does not wait for the socket's closeChan: a probing transport whose session closes stays open until the upgrade timeout — or for ever once `done` was closed")
+}
